@@ -241,6 +241,10 @@ def main():
     for fam, count in recipe:
         recs, h = run_batches(prop, split_jobs(fam, seed, count, 3))
         all_recs += [r for r in recs if "index" in r]
+        ends = [r["end_of_family"] for r in recs if "end_of_family" in r]
+        if ends:
+            # a finite (grid) family was enumerated to its end: that part of the run is exhaustive
+            GRID_SIZES[fam] = min(ends)
         harness += h
     if harness:
         for h in harness[:5]:
@@ -301,6 +305,9 @@ def main():
     return exit_code
 
 
+GRID_SIZES = {}
+
+
 def write_evidence(prop, tier, seed, recs, recipe, wall, n_viol, known_seen):
     os.makedirs(EVID, exist_ok=True)
     probes, faults = {}, {}
@@ -344,7 +351,8 @@ def write_evidence(prop, tier, seed, recs, recipe, wall, n_viol, known_seen):
             "distinct_nontrivial": len(nontrivial_hashes),
             "rule": LEVELS[prop]["rule"],
             "samples": samples,
-            "exhaustive": bool(LEVELS[prop].get("exhaustive_families") and all(f in LEVELS[prop]["exhaustive_families"] for f, _ in recipe)),
+            "exhaustive": bool(recipe) and all(f in GRID_SIZES and per_family.get(f, 0) >= GRID_SIZES[f] for f, _ in recipe),
+            "exhaustively_enumerated_families": {f: n for f, n in GRID_SIZES.items() if per_family.get(f, 0) >= n},
             "runs_per_family": per_family,
             "distinct_traces": len(hashes),
             "distinct_interleavings": len(ileaves),
